@@ -15,7 +15,7 @@ RULE = ("states = (salt, weight vector, splitter arity) programs; transitions = 
         "the E-val alphabet (str incl. non-ASCII/NUL/quotes/1e4..1e6 chars, big ints, special floats, bool, None) as "
         "splitter, co-splitter and extra field; oracle = reference scheme + same-str pairs share the bucket")  # fmt: skip
 
-SALTS = [None, "", "s", "é", "日本", "e\u0301", "'", "\\", "a b", "\\'", "%s{0}", "🎲", "𝒳y𠀀", "\x7f\x01", "\u2028", "l’été", "“beta”", "‘a’"]
+SALTS = [None, "", "s", "é", "日本", "e\u0301", "'", "\\", "a b", "\\'", "%s{0}", "🎲", "𝒳y𠀀", "\x7f\x01", "\u2028", "l’été", "“beta”", "‘a’", 'say "hi"', '"', "a\\"]
 WV = {
     "ab": (("A", "1"), ("B", "1")),
     "123": (("x", "1"), ("y", "2"), ("z", "3")),
